@@ -33,6 +33,7 @@ def run(prog, chk):
     chk.rule(degenerate_boxes, prog, chk)
     chk.rule(builder_accumulates, prog, chk)
     chk.rule(path_subpath_start, prog, chk)
+    chk.rule(path_arity, prog, chk)
     chk.rule(points_parity, prog, chk)
     chk.rule(use_translation, prog, chk)
     chk.rule(translation_before_clip, prog, chk)
@@ -366,6 +367,58 @@ def path_subpath_start(prog, chk):
         chk.undecided("A15.path-subpath", "process_instruction:close", b.where(sx), "the recorded subpath start is read outside the arms of the dispatch on the command letter: which command that read serves is not read here")
         return
     chk.ob(bool(reads), "A15.path-subpath", "process_instruction:close", b.where(sx), "Z / z move to the recorded subpath start", "the closepath arm no longer reads the recorded subpath start")
+
+
+PATH_ARITY = {"M": 2, "L": 2, "T": 2, "H": 1, "V": 1, "C": 6, "S": 4, "Q": 4, "A": 7, "Z": 0}
+
+
+def path_arity(prog, chk):
+    """path data: each command letter is followed by the number of numbers SVG 1.1 (8.3) gives it - moveto / lineto /
+    smooth quadratic 2, horizontal / vertical lineto 1, curveto 6, smooth curveto and quadratic 4, arc 7, closepath
+    none - lower case as upper case.  Counted per arm of the dispatch on the letter: reads of one number / of a
+    coordinate pair on the way from the arm to where the arms meet again.  One pair too many and the next command's
+    numbers are eaten (or the data runs out); one too few and the rest is read as the wrong command"""
+    b = prog.maybe_body("svgdx::path::PathParser::process_instruction")
+    if b is None:
+        chk.anchor_missing("A15.path-arity", "PathParser::process_instruction not found")
+        return
+    chk.touch(b)
+    sws = [(x, b.term(x)) for x in b.reachable if b.term(x)["k"] == "switch" and b.term(x).get("ty") == "char" and len(b.term(x)["vals"]) >= 10]
+    if not sws:
+        chk.anchor_missing("A15.path-arity", "process_instruction: no dispatch on the command letter with an arm per command")
+        return
+    sx, st = max(sws, key=lambda z: len(z[1]["vals"]))
+    targets = sorted({tgt for _v, tgt in st["vals"]})
+    reach = {tgt: b.reach([tgt]) for tgt in targets}
+    # where the arms meet again: blocks every arm reaches (errors leave through `?`, which also every arm reaches - the
+    # reads are what tells the arms apart)
+    common = set.intersection(*[set(r) for r in reach.values()]) if reach else set()
+    n = 0
+    for v, tgt in sorted(st["vals"]):
+        letter = chr(v)
+        want = PATH_ARITY.get(letter.upper())
+        if want is None:
+            continue
+        own = [x for x in reach[tgt] if x not in common]
+        got = 0
+        unknown = False
+        for x in own:
+            t = b.term(x)
+            if t["k"] in ("call", "tailcall") and "fn" in t:
+                last = Callee(t["fn"]).path.split("::")[-1]
+                if last == "read_coord":
+                    got += 2
+                elif last == "read_number":
+                    got += 1
+                elif Callee(t["fn"]).local and last not in ("update_position", "begin_subpath", "from_residual", "branch", "at_end", "at_command", "unwrap_or", "ok_or_else", "into", "from", "to_owned", "min", "max"):
+                    unknown = unknown or last.startswith(("read_", "skip_", "parse_"))
+        # a loop inside the arm or reads on alternative paths make the count meaningless
+        if any(x in b.loops for x in own) or unknown:
+            chk.undecided("A15.path-arity", f"process_instruction:{letter}", b.where(tgt), f"the numbers read for `{letter}` are not a straight run of read_number / read_coord calls in its arm")
+            continue
+        n += 1
+        chk.ob(got == want, "A15.path-arity", f"process_instruction:{letter}", b.where(tgt), f"`{letter}` reads {want} number(s)", f"the arm of path command `{letter}` reads {got} number(s); SVG gives it {want}: the numbers of the following command are consumed (or the data runs out: 'Ran out of data'), so valid path data fails or gives a wrong extent")
+    chk.floor("A15.path-arity", n, 18, "path command letter with a counted arm")
 
 
 def points_parity(prog, chk):
